@@ -98,6 +98,58 @@ CLAIMS = {
         design_ref="DESIGN.md section 4 C11",
         technique="bounded run-time round-trip equality + pyvc proofs of export leaves",
         note=TB + "; import_* functions are not under a proved contract"),
+    "C02": dict(
+        category="other",
+        text="Hybrid. Proved (pyvc): check_signals_compatible returns Valid exactly when both sides have equal widths; "
+             "MarkModules.elaborate_module returns only for a named module and freezes it; Orphanage.assert_parentage / "
+             "check_connectable return only for owned objects; elaborate_module_base / elaborate_tops visit every "
+             "module once per pass class; _slice_inner rejects out-of-range and empty indices (C03). Evaluated on the "
+             "real Elaborator.default(): no pass class is listed twice (own cache per pass) and the connection and "
+             "ownership checks run after the last rewriting pass. Bounded fault enumeration (labelled): the 13 fault "
+             "classes of the statement planted at every applicable site, at the top and 1-2 levels deep, through "
+             "to_proto / elaborate / netlist.",
+        design_ref="DESIGN.md section 4 C02",
+        technique="contract-based deductive verification of checker soundness (pyvc, z3) + pass-list obligations + "
+                  "bounded single-fault enumeration",
+        note=TB + "; check_instance / check_bundles_compatible / the array width rule are covered by the fault family "
+             "only; one known finding (name clash accepted by elaborate() alone)"),
+    "C05": dict(
+        category="other",
+        text="Hybrid. Proved (pyvc with z3 + cvc5 on strings): ElabPass.flatname returns join(segments) + '_'*k not in "
+             "the avoid set and within maxlen (loop invariant + decreasing measure); ResolvePortRefs.create_source and "
+             "replace_noconn insert only names absent from the module namespace (call-site precondition of the "
+             "pass-internal Module.add contract) and leave every designer name bound to its object. Bounded "
+             "(labelled): adversarially named designs for every naming rule x underscore suffixes x declaration "
+             "orders against the reference interpreter and object identity.",
+        design_ref="DESIGN.md section 4 C05",
+        technique="contract-based deductive verification on strings (pyvc, z3 + cvc5) with call-site obligations + "
+                  "bounded adversarial naming family",
+        note=TB + "; insertion sites in arrays.py, inst_bundles.py, flatten_bundles.py are bounded only"),
+    "C07": dict(
+        category="other",
+        text="Hybrid. Proved (pyvc): elaborate_module_base returns a module already done by the pass untouched and "
+             "only grows done (cache soundness); module._add refuses additions once _elaborated is set; MarkModules "
+             "sets it. Bounded (labelled): exhaustive 1-2 call and seeded longer histories of elaborate/to_proto/"
+             "netlist on sub-modules and lists before exporting the top of 4 DAGs with shared children, bundle ports, "
+             "port references; idempotence; new parents over elaborated children; create/delete cycles for id-keyed "
+             "caches.",
+        design_ref="DESIGN.md section 4 C07",
+        technique="contract-based deductive verification of cache soundness and freeze (pyvc, z3) + bounded call "
+                  "histories",
+        note=TB + "; io_for_checking / io_for_resolving / THE_CACHE are covered by the bounded histories only"),
+    "C12": dict(
+        category="other",
+        text="Static determinism obligations re-derived from the AST on every run: each loop or comprehension over a "
+             "set-typed field in hdl21/elab, hdl21/proto, params/flatten/generator/qualname either goes through an "
+             "ordering function or writes only into the loop element; no id()/hash() flows into generated names. "
+             "Bounded (labelled): every design of the family (plus order-sensitive shapes) exported and netlisted in "
+             "spice/spectre/verilog in 6 (12) processes with different PYTHONHASHSEED and randomised unrelated work, "
+             "all digests equal.",
+        design_ref="DESIGN.md section 4 C12",
+        technique="static frame/determinism obligations over the AST + bounded multi-process comparison (cross-process "
+                  "equality is not expressible as a contract on one call; labelled bounded)",
+        note="set iteration order is the only modelled source of nondeterminism; the AST audit is syntactic (set-typed "
+             "fields identified by name)"),
 }
 
 NA_REASON = "check not built yet (work in progress; see DESIGN.md section 4 for the plan)"
